@@ -9,6 +9,6 @@ PROP = {
 }
 META = {
     "technique": "runtime monitor: round-trip oracle decode(encode(x)) == x and reader-at-EOF over the real encoders/decoders, field-boundary list + seeded random values + random record sequences",
-    "text": "Exploration: every record type (FileBegin, FileEnd, FileDone, FileResumeInfo, ResumeRequest, Credit, CreditBatch, DataStreams, End) and the manifest header is encoded by the repository's writer into an in-memory stream and decoded by readControlMessage/readControlHeader; the decoded value must equal the sent one and the reader must have consumed exactly the written bytes. Values: a fixed list of field boundaries (path 1..1024 bytes in 10 name classes, ids/error texts 0..65535 bytes, bitmaps nil..2^20+1 bytes, credit batches 0..100000 entries, manifests nil..2000 items, zero/max numerics), 40 000 (quick) / 500 000 (thorough) seeded random values and 2 000 / 20 000 random sequences of 1-50 records, each in whole-read and short-read mode. Decides the generated values, not all values.",
+    "text": "Exploration: every record type (FileBegin, FileEnd, FileDone, FileResumeInfo, ResumeRequest, Credit, CreditBatch, DataStreams, End) and the manifest header is encoded by the repository's writer into an in-memory stream and decoded by readControlMessage/readControlHeader; the decoded value must equal the sent one and the reader must have consumed exactly the written bytes. Values: a fixed list of field boundaries (path 1..1024 bytes in 10 name classes, ids/error texts 0..65535 bytes, bitmaps nil..2^20+1 bytes, credit batches 0..100000 entries, manifests nil..2000 items, zero/max numerics), 40 000 (quick) / 1 500 000 (thorough) seeded random values and 2 000 / 60 000 random sequences of 1-50 records, each in whole-read and short-read mode. Decides the generated values, not all values.",
     "note": "Trusted: the harness comparison (field-wise equality, nil == empty), the in-memory stream. Not covered: JSON headers near the 4 GiB length limit, bitmaps above 1 MiB, pkg/protocol.Envelope (signaling JSON, not one of the quantified records).",
 }
